@@ -72,6 +72,9 @@ type HarnessSpec struct {
 	EffectsOf []string          `json:"effects_of,omitempty"` // C20: report stores to pre-existing memory
 	Params    map[string]int    `json:"params,omitempty"`     // concrete parameters passed to the entry (lengths etc.)
 	LoopAssume map[string]int   `json:"loop_assume,omitempty"` // function name -> iteration bound taken as an ASSUMPTION (stated bound)
+	BigShared bool              `json:"big_shared,omitempty"` // math/big storage-sharing model: struct copies of a big.Int share the limbs
+	External  []string          `json:"external,omitempty"`  // package path prefixes treated as uninterpreted
+	Contracts map[string]Contract `json:"contracts,omitempty"` // per external function: which pointer arguments it writes
 	Globals   []string          `json:"globals,omitempty"` // package-level variables whose (natively dumped) values the harness reads
 	Mutants   []Mutant          `json:"mutants,omitempty"`
 	ExpectSat []string          `json:"expect_sat,omitempty"` // assertion ids that MUST be violated (vacuity twins)
@@ -359,6 +362,9 @@ func newMachine(prog *ssa.Program, h HarnessSpec) *Machine {
 	m.cur = &State{mem: map[int]Value{}}
 	m.dump = globalDump
 	m.loopAssume = h.LoopAssume
+	m.externalPkgs = h.External
+	m.bigShared = h.BigShared
+	m.contracts = h.Contracts
 	return m
 }
 
